@@ -11,7 +11,7 @@ package memefish
 // Vocabulary
 //
 // TokOK: the current token lies inside the buffer and ends where the lexer stands.
-// @ spec TokOK(l) = 0 <= l.Token.Pos && l.Token.Pos <= l.Token.End && l.Token.End == l.pos && (l.Token.Kind == "<eof>" ==> l.Token.Pos == len(l.Buffer)) && (l.Token.Kind == ">>" ==> l.Token.End == l.Token.Pos + 2) && (l.Token.Kind != ">" ==> len(l.Token.Raw) == l.Token.End - l.Token.Pos && (isSub(l.Token.Raw, l.Buffer, l.Token.Pos, l.Token.End) || (l.Token.Kind == "<bad>" && l.Token.Pos == l.Token.End))) && (!literalKind(l.Token.Kind) ==> l.Token.End - l.Token.Pos == len(l.Token.Kind)) && (l.Token.Kind == "<param>" ==> len(l.Token.AsString) == l.Token.End - l.Token.Pos - 1) && (l.Token.Kind == "<ident>" ==> len(l.Token.AsString) > 0)
+// @ spec TokOK(l) = 0 <= l.Token.Pos && l.Token.Pos <= l.Token.End && l.Token.End == l.pos && (l.Token.Kind == "<eof>" ==> l.Token.Pos == len(l.Buffer)) && (l.Token.Kind == ">>" ==> l.Token.End == l.Token.Pos + 2) && (l.Token.Kind != ">" ==> len(l.Token.Raw) == l.Token.End - l.Token.Pos && (isSub(l.Token.Raw, l.Buffer, l.Token.Pos, l.Token.End) || (l.Token.Kind == "<bad>" && l.Token.Pos == l.Token.End) || l.Token.Kind == "")) && (!literalKind(l.Token.Kind) ==> l.Token.End - l.Token.Pos == len(l.Token.Kind)) && (l.Token.Kind == "<param>" ==> len(l.Token.AsString) == l.Token.End - l.Token.Pos - 1) && (l.Token.Kind == "<ident>" ==> len(l.Token.AsString) > 0)
 // a token that is neither <eof> nor <bad> nor the zero token is not empty (this is what makes the parser advance)
 // @ spec nonEmptyTok(l) = l.Token.Kind == "<eof>" || l.Token.Kind == "" || l.Token.Pos < l.Token.End || (l.Token.Kind == "<bad>" && l.Token.Pos == len(l.Buffer))
 // the spelling recorded in the current token has the length of its range (the '>' left over from a '>>'
